@@ -38,20 +38,30 @@ func init() {
 				idx := 0
 				inspectShallow(f.Body(), func(x ast.Node) bool {
 					fs, ok := x.(*ast.ForStmt)
-					if !ok || fs.Cond != nil || fs.Post == nil {
+					if !ok || fs.Cond != nil {
 						return true
+					}
+					// the step: the post statement, or — `v := X; for { …; v = (v - 1) & X }` — a statement of the body
+					steps := []ast.Stmt{fs.Post}
+					if fs.Post == nil {
+						steps = fs.Body.List
 					}
 					// the loop variable and the exit test
 					var v ast.Expr
 					kind, mask := "", ast.Expr(nil)
-					switch post := fs.Post.(type) {
-					case *ast.IncDecStmt:
-						v, kind = post.X, "count"
-					case *ast.AssignStmt:
-						if len(post.Lhs) == 1 && len(post.Rhs) == 1 {
-							if be, ok := ast.Unparen(post.Rhs[0]).(*ast.BinaryExpr); ok && be.Op == token.AND {
-								if sub, ok := ast.Unparen(be.X).(*ast.BinaryExpr); ok && sub.Op == token.SUB && identObj(info, sub.X) != nil && identObj(info, sub.X) == identObj(info, post.Lhs[0]) {
-									v, kind, mask = post.Lhs[0], "submask", be.Y
+					for _, step := range steps {
+						if kind != "" {
+							break
+						}
+						switch post := step.(type) {
+						case *ast.IncDecStmt:
+							v, kind = post.X, "count"
+						case *ast.AssignStmt:
+							if len(post.Lhs) == 1 && len(post.Rhs) == 1 {
+								if be, ok := ast.Unparen(post.Rhs[0]).(*ast.BinaryExpr); ok && be.Op == token.AND {
+									if sub, ok := ast.Unparen(be.X).(*ast.BinaryExpr); ok && sub.Op == token.SUB && identObj(info, sub.X) != nil && identObj(info, sub.X) == identObj(info, post.Lhs[0]) {
+										v, kind, mask = post.Lhs[0], "submask", be.Y
+									}
 								}
 							}
 						}
